@@ -133,3 +133,41 @@ func TestStrip(t *testing.T) {
 		fmt.Printf("%q\n  1: %q %v\n  2: %q %v\n  3: %q %v\n", text, o1, e1, o2, e2, o3, e3)
 	}
 }
+
+// TestBoundary runs the token-size boundary space and prints verdicts; a development aid.
+func TestBoundary(t *testing.T) {
+	if os.Getenv("C16_BOUND") == "" {
+		t.Skip("no C16_BOUND")
+	}
+	set := ownCfgSet(allConfigs())
+	for _, k := range boundKinds {
+		for _, n := range boundLengths() {
+			for _, ctx := range boundContexts {
+				bc := boundCase{Kind: k, Len: n, Ctx: ctx.name}
+				fs, st := checkBoundary(k, ctx.name, bc.text(), set)
+				if len(fs) == 0 {
+					continue
+				}
+				fmt.Printf("%-10s %7d %-12q accepted=%v findings=%d\n", k, n, ctx.name, st.accepted, len(fs))
+				for _, f := range fs {
+					fmt.Printf("    %s/%s: %s\n", f.Cfg, f.Class, f.Got)
+				}
+			}
+		}
+	}
+}
+
+func TestBoundDbg(t *testing.T) {
+	if os.Getenv("C16_BDBG") == "" {
+		t.Skip("")
+	}
+	for _, n := range []int{1000, 65536, 131070} {
+		text := "(a " + longToken("comment", n) + "\n)\n"
+		out, err := formatter.Format([]byte(text), nil)
+		s := string(out)
+		fmt.Printf("n=%d in=%d out=%d err=%v semis=%d newlines=%d head=%q tail=%q\n", n, len(text), len(s), err, strings.Count(s, ";"), strings.Count(s, "\n"), s[:12], s[len(s)-12:])
+		if i := strings.Index(s, "\n"); i >= 0 {
+			fmt.Printf("   first line %d bytes; second line starts %q\n", i, s[i+1:i+1+20])
+		}
+	}
+}
